@@ -1932,4 +1932,364 @@ theorem basic_run {opt : State → Except Err State} (ho : OptSegs opt) :
 
 theorem basic_init : Basic init := ⟨by decide, by intro x hx; cases hx⟩
 
+/-! ### the model's own `optimise_segment_groups` (both variants) meets `OptSpec` -/
+
+theorem aligned_updGroup (g : String) (f : Group → Group) :
+    ∀ (gs : List Group), (∀ X, look gs g = some X → (f X).id = X.id ∧ ∀ u, u ∈ (f X).includes ↔ u ∈ X.includes) →
+      Aligned (updGroup g f gs) gs
+  | [], _ => .nil
+  | G :: gs, h => by
+    unfold updGroup
+    by_cases e : G.id = g
+    · simp only [e, beq_self_eq_true, ↓reduceIte]
+      have := h G (by rw [look_cons]; simp [e])
+      exact .cons this.1 this.2 (Aligned.refl gs)
+    · have e' : (G.id == g) = false := by simpa using e
+      simp only [e', Bool.false_eq_true, ↓reduceIte]
+      refine .cons rfl (fun _ => Iff.rfl) (aligned_updGroup g f gs ?_)
+      intro X hX
+      exact h X (by rw [look_cons]; simp [e, hX])
+
+theorem flatMem_congr_set {gs gs' : List Group} (hm : ∀ k i, i ∈ mems gs' k ↔ i ∈ mems gs k)
+    (hi : ∀ k u, u ∈ incs gs' k ↔ u ∈ incs gs k) (g : String) (i : Nat) : FlatMem gs' g i ↔ FlatMem gs g i := by
+  unfold FlatMem
+  constructor
+  · rintro (h | ⟨u, hu, h⟩)
+    · exact Or.inl ((hm g i).mp h)
+    · exact Or.inr ⟨u, (hi g u).mp hu, (hm u i).mp h⟩
+  · rintro (h | ⟨u, hu, h⟩)
+    · exact Or.inl ((hm g i).mpr h)
+    · exact Or.inr ⟨u, (hi g u).mpr hu, (hm u i).mpr h⟩
+
+/-- from "every id reads the same two-level set" back to the statement about `get_all_segments_in_group` -/
+theorem res_of_flatMem {s s' : State} (hs : Str s.groups) (ha : Aligned s'.groups s.groups) (hsegs : s'.segs = s.segs)
+    (hfm : ∀ g i, FlatMem s'.groups g i ↔ FlatMem s.groups g i) :
+    ∀ g l, resolve s g = .ok l → ∃ l', resolve s' g = .ok l' ∧ ∀ i, i ∈ l' ↔ i ∈ l := by
+  intro g l hl
+  have hs' := str_aligned ha hs
+  have hids : s'.ids = s.ids := by unfold State.ids; rw [hsegs]
+  rcases ha.look g with ⟨e1, e2⟩ | ⟨G', G, e1, e2, _⟩
+  · unfold resolve resolveAux at hl ⊢
+    rw [e2] at hl
+    rw [e1]
+    simp only at hl ⊢
+    split at hl
+    · rename_i hg
+      cases hl
+      simp only [hg, ↓reduceIte, hids]
+      exact ⟨s.ids, rfl, fun _ => Iff.rfl⟩
+    · cases hl
+  · obtain ⟨l0, hl0, hm0⟩ := resolve_flat s.ids hs.flat e2
+    obtain ⟨l', hl', hm'⟩ := resolve_flat s'.ids hs'.flat e1
+    unfold resolve at hl
+    rw [hl0] at hl
+    cases hl
+    exact ⟨l', hl', fun i => by rw [hm', hm0, hfm]⟩
+
+theorem setMI_basic (g : String) (ms : List Nat) (is : List String) (s : State) :
+    (setMI g ms is s).segs = s.segs ∧ (setMI g ms is s).memb = s.memb ∧ (setMI g ms is s).intra = s.intra :=
+  ⟨rfl, rfl, rfl⟩
+
+theorem setM_basic (g : String) (ms : List Nat) (s : State) :
+    (setM g ms s).segs = s.segs ∧ (setM g ms s).memb = s.memb ∧ (setM g ms s).intra = s.intra := ⟨rfl, rfl, rfl⟩
+
+theorem mems_setMI {s : State} {g : String} {G : Group} (e : look s.groups g = some G) (ms : List Nat) (is : List String)
+    (k : String) : mems (setMI g ms is s).groups k = if k = g then ms else mems s.groups k := by
+  unfold setMI
+  simp only
+  rw [mems_updGroup g (fun G => { G with members := ms, includes := is }) (fun _ => rfl), e]
+
+theorem incs_setMI {s : State} {g : String} {G : Group} (e : look s.groups g = some G) (ms : List Nat) (is : List String)
+    (k : String) : incs (setMI g ms is s).groups k = if k = g then is else incs s.groups k := by
+  unfold setMI
+  simp only
+  rw [incs_updGroup g (fun G => { G with members := ms, includes := is }) (fun _ => rfl), e]
+
+theorem mems_setM {s : State} {g : String} {G : Group} (e : look s.groups g = some G) (ms : List Nat)
+    (k : String) : mems (setM g ms s).groups k = if k = g then ms else mems s.groups k := by
+  unfold setM
+  simp only
+  rw [mems_updGroup g (fun G => { G with members := ms }) (fun _ => rfl), e]
+
+theorem incs_setM (s : State) (g : String) (ms : List Nat) (k : String) :
+    incs (setM g ms s).groups k = incs s.groups k := by
+  unfold setM
+  simp only
+  rw [incs_updGroup g (fun G => { G with members := ms }) (fun _ => rfl)]
+  by_cases e : k = g
+  · subst e
+    unfold incs
+    cases look s.groups k <;> simp
+  · simp [e]
+
+theorem aligned_setMI {s : State} {g : String} {G : Group} (e : look s.groups g = some G) (ms : List Nat)
+    (is : List String) (his : ∀ u, u ∈ is ↔ u ∈ G.includes) : Aligned (setMI g ms is s).groups s.groups := by
+  unfold setMI
+  refine aligned_updGroup g _ s.groups ?_
+  intro X hX
+  rw [e] at hX
+  cases hX
+  exact ⟨rfl, his⟩
+
+theorem aligned_setM (s : State) (g : String) (ms : List Nat) : Aligned (setM g ms s).groups s.groups := by
+  unfold setM
+  exact aligned_updGroup g _ s.groups (fun X _ => ⟨rfl, fun _ => Iff.rfl⟩)
+
+theorem coveredBy_ok (rec : String → Except Err (List Nat)) (f : String → List Nat) :
+    ∀ (us : List String) (acc cov : List Nat), (∀ u ∈ us, ∃ l, rec u = .ok l ∧ ∀ i, i ∈ l ↔ i ∈ f u) →
+      coveredBy rec us acc = .ok cov → ∀ i, i ∈ cov ↔ i ∈ acc ∨ ∃ u ∈ us, i ∈ f u
+  | [], acc, cov, _, e => by unfold coveredBy at e; cases e; simp
+  | u :: us, acc, cov, h, e => by
+    unfold coveredBy at e
+    obtain ⟨l, hl, hm⟩ := h u (by simp)
+    rw [hl] at e
+    simp only at e
+    intro i
+    rw [coveredBy_ok rec f us (acc ++ l) cov (fun v hv => h v (by simp [hv])) e i]
+    simp only [List.mem_append, List.mem_cons, exists_eq_or_imp, hm]
+    constructor
+    · rintro ((h1 | h1) | h1)
+      · exact Or.inl h1
+      · exact Or.inr (Or.inl h1)
+      · exact Or.inr (Or.inr h1)
+    · rintro (h1 | h1 | h1)
+      · exact Or.inl (Or.inl h1)
+      · exact Or.inl (Or.inr h1)
+      · exact Or.inr h1
+
+theorem survivorsCur_ok (rec : String → Except Err (List Nat)) (f : String → List Nat) (members : List Nat) :
+    ∀ (us : List String) (acc ms : List Nat), (∀ u ∈ us, ∃ l, rec u = .ok l ∧ ∀ i, i ∈ l ↔ i ∈ f u) →
+      survivorsCur rec members us acc = .ok ms → ∀ i, i ∈ ms ↔ i ∈ acc ∨ (i ∈ members ∧ ∃ u ∈ us, i ∉ f u)
+  | [], acc, ms, _, e => by unfold survivorsCur at e; cases e; simp
+  | u :: us, acc, ms, h, e => by
+    unfold survivorsCur at e
+    obtain ⟨l, hl, hm⟩ := h u (by simp)
+    rw [hl] at e
+    simp only at e
+    intro i
+    rw [survivorsCur_ok rec f members us _ ms (fun v hv => h v (by simp [hv])) e i]
+    simp only [List.mem_append, List.mem_filter, List.mem_cons, exists_eq_or_imp, Bool.not_eq_eq_eq_not,
+      Bool.not_true, List.contains_eq_mem, decide_eq_false_iff_not, hm]
+    constructor
+    · rintro ((h1 | ⟨h1, h2⟩) | ⟨h1, h2⟩)
+      · exact Or.inl h1
+      · exact Or.inr ⟨h1, Or.inl h2⟩
+      · exact Or.inr ⟨h1, Or.inr h2⟩
+    · rintro (h1 | ⟨h1, h2 | h2⟩)
+      · exact Or.inl (Or.inl h1)
+      · exact Or.inl (Or.inr ⟨h1, h2⟩)
+      · exact Or.inr ⟨h1, h2⟩
+
+/-- what stays after pruning: the members no include covers, as a set — for both variants of the loop -/
+theorem prune_ok (cfg : Cfg) {s1 : State} (hs1 : Str s1.groups) {g : String} {G1 : Group} (e1 : look s1.groups g = some G1)
+    (members : List Nat) (hne : G1.includes ≠ []) {ms : List Nat}
+    (e : prune cfg s1 members G1.includes = .ok ms) (i : Nat) :
+    (i ∈ ms ∨ ∃ u ∈ G1.includes, i ∈ mems s1.groups u) ↔ (i ∈ members ∨ ∃ u ∈ G1.includes, i ∈ mems s1.groups u) := by
+  -- every include is a leaf that resolves to its members
+  have hleaf : ∀ u ∈ G1.includes, ∃ l, resolve s1 u = .ok l ∧ ∀ i, i ∈ l ↔ i ∈ mems s1.groups u := by
+    intro u hu
+    obtain ⟨_, hnd, hsome⟩ := hs1.flat G1 (look_some_mem e1) u hu
+    cases eu : look s1.groups u with
+    | none => rw [eu] at hsome; cases hsome
+    | some U =>
+      obtain ⟨l, hl, hm⟩ := resolve_flat s1.ids hs1.flat eu
+      exact ⟨l, hl, fun i => (hm i).trans (flatMem_nondefault hs1.flat hnd i)⟩
+  unfold prune at e
+  by_cases hcov : ∃ u ∈ G1.includes, i ∈ mems s1.groups u
+  · exact ⟨fun _ => Or.inr hcov, fun _ => Or.inr hcov⟩
+  · split at e
+    · split at e
+      · rename_i cov ec
+        cases e
+        have := coveredBy_ok (resolve s1) (mems s1.groups) G1.includes [] cov hleaf ec i
+        simp only [List.not_mem_nil, false_or] at this
+        simp only [List.mem_filter, Bool.not_eq_eq_eq_not, Bool.not_true, List.contains_eq_mem,
+          decide_eq_false_iff_not, this]
+        constructor
+        · rintro (⟨h1, _⟩ | h1)
+          · exact Or.inl h1
+          · exact Or.inr h1
+        · rintro (h1 | h1)
+          · exact Or.inl ⟨h1, hcov⟩
+          · exact Or.inr h1
+      · cases e
+    · have := survivorsCur_ok (resolve s1) (mems s1.groups) members G1.includes [] ms hleaf e i
+      simp only [List.not_mem_nil, false_or] at this
+      rw [this]
+      constructor
+      · rintro (⟨h1, _⟩ | h1)
+        · exact Or.inl h1
+        · exact Or.inr h1
+      · rintro (h1 | h1)
+        · refine Or.inl ⟨h1, ?_⟩
+          cases hI : G1.includes with
+          | nil => exact absurd hI hne
+          | cons u0 us =>
+            refine ⟨u0, by simp, ?_⟩
+            intro hmem
+            exact hcov ⟨u0, by rw [hI]; simp, hmem⟩
+        · exact Or.inr h1
+
+theorem optimiseGroup_basic {cfg : Cfg} {s s' : State} {g : String} (e : optimiseGroup cfg s g = .ok s') :
+    s'.segs = s.segs ∧ s'.memb = s.memb ∧ s'.intra = s.intra ∧ Aligned s'.groups s.groups := by
+  unfold optimiseGroup at e
+  split at e
+  · cases e
+  rename_i G eG
+  have eL : look s.groups g = some G := by
+    unfold findGroup at eG
+    split at eG
+    · cases eG
+    · exact eG
+  have ha1 := aligned_setMI eL (dedup G.members) (dedupStr G.includes) (mem_dedupStr G.includes)
+  simp only at e
+  split at e
+  · split at e
+    · cases e
+      exact ⟨rfl, rfl, rfl, (aligned_setM _ g _).trans ha1⟩
+    · cases e
+  · cases e
+    exact ⟨rfl, rfl, rfl, ha1⟩
+
+theorem optimiseGroup_flatMem {cfg : Cfg} {s s' : State} {g : String} (hs : Str s.groups)
+    (e : optimiseGroup cfg s g = .ok s') : ∀ h i, FlatMem s'.groups h i ↔ FlatMem s.groups h i := by
+  unfold optimiseGroup at e
+  split at e
+  · cases e
+  rename_i G eG
+  have eL : look s.groups g = some G := by
+    unfold findGroup at eG
+    split at eG
+    · cases eG
+    · exact eG
+  have hGm : mems s.groups g = G.members := by unfold mems; rw [eL]
+  have hGi : incs s.groups g = G.includes := by unfold incs; rw [eL]
+  let s1 := setMI g (dedup G.members) (dedupStr G.includes) s
+  have ha1 : Aligned s1.groups s.groups := aligned_setMI eL _ _ (mem_dedupStr G.includes)
+  have hs1 : Str s1.groups := str_aligned ha1 hs
+  have hm1 : ∀ k i, i ∈ mems s1.groups k ↔ i ∈ mems s.groups k := by
+    intro k i
+    rw [mems_setMI eL]
+    by_cases ek : k = g
+    · subst ek; simp only [↓reduceIte, mem_dedup, hGm]
+    · simp only [ek, ↓reduceIte]
+  have hi1 : ∀ k u, u ∈ incs s1.groups k ↔ u ∈ incs s.groups k := by
+    intro k u
+    rw [incs_setMI eL]
+    by_cases ek : k = g
+    · subst ek; simp only [↓reduceIte, mem_dedupStr, hGi]
+    · simp only [ek, ↓reduceIte]
+  have hfm1 : ∀ h i, FlatMem s1.groups h i ↔ FlatMem s.groups h i := flatMem_congr_set hm1 hi1
+  simp only at e
+  split at e
+  · rename_i hcond
+    split at e
+    · rename_i ms ep
+      cases e
+      -- the first group called `g` in `s1`
+      have hsome1 : (look s1.groups g).isSome := by rw [look_isSome_of_ids ha1.ids]; rw [eL]; rfl
+      cases e1 : look s1.groups g with
+      | none => rw [e1] at hsome1; cases hsome1
+      | some G1 =>
+        have hG1m : mems s1.groups g = dedup G.members := by rw [mems_setMI eL]; simp
+        have hG1i : incs s1.groups g = dedupStr G.includes := by rw [incs_setMI eL]; simp
+        have hG1i' : G1.includes = dedupStr G.includes := by
+          have : incs s1.groups g = G1.includes := by unfold incs; rw [e1]
+          rw [← this, hG1i]
+        -- `g` has includes, so it is a default group and nobody includes it
+        have hgdef : isDefaultName g = true := by
+          cases hI : G1.includes with
+          | nil => rw [hG1i'] at hI; exact absurd hI hcond.1
+          | cons u0 us =>
+            have := (hs1.flat G1 (look_some_mem e1) u0 (by rw [hI]; simp)).1
+            rw [look_some_id e1] at this
+            exact this
+        have hnotinc : ∀ k u, u ∈ incs s1.groups k → u ≠ g := by
+          intro k u hu e
+          subst e
+          unfold incs at hu
+          cases ek : look s1.groups k with
+          | none => rw [ek] at hu; cases hu
+          | some K =>
+            rw [ek] at hu
+            have := (hs1.flat K (look_some_mem ek) u hu).2.1
+            rw [hgdef] at this
+            cases this
+        have hprune := prune_ok cfg hs1 e1 (dedup G.members) (by rw [hG1i']; exact hcond.1) (by rw [hG1i']; exact ep)
+        intro h i
+        rw [← hfm1 h i]
+        unfold FlatMem
+        rw [incs_setM]
+        by_cases eh : h = g
+        · subst eh
+          rw [mems_setM e1]
+          simp only [↓reduceIte, mem_natSort]
+          have hrest : ∀ u ∈ incs s1.groups h, mems (setM h (natSort ms) s1).groups u = mems s1.groups u := by
+            intro u hu; rw [mems_setM e1]; simp only [hnotinc h u hu, ↓reduceIte]
+          have hi' : incs s1.groups h = G1.includes := by unfold incs; rw [e1]
+          have := hprune i
+          rw [← hi'] at this
+          rw [hG1m]
+          constructor
+          · rintro (h1 | ⟨u, hu, h1⟩)
+            · exact this.mp (Or.inl h1)
+            · rw [hrest u hu] at h1; exact Or.inr ⟨u, hu, h1⟩
+          · intro h1
+            rcases this.mpr h1 with h2 | ⟨u, hu, h2⟩
+            · exact Or.inl h2
+            · exact Or.inr ⟨u, hu, by rw [hrest u hu]; exact h2⟩
+        · have hmh : mems (setM g (natSort ms) s1).groups h = mems s1.groups h := by
+            rw [mems_setM e1]; simp only [eh, ↓reduceIte]
+          rw [hmh]
+          have hrest : ∀ u ∈ incs s1.groups h, mems (setM g (natSort ms) s1).groups u = mems s1.groups u := by
+            intro u hu; rw [mems_setM e1]; simp only [hnotinc h u hu, ↓reduceIte]
+          constructor
+          · rintro (h1 | ⟨u, hu, h1⟩)
+            · exact Or.inl h1
+            · exact Or.inr ⟨u, hu, by rw [← hrest u hu]; exact h1⟩
+          · rintro (h1 | ⟨u, hu, h1⟩)
+            · exact Or.inl h1
+            · exact Or.inr ⟨u, hu, by rw [hrest u hu]; exact h1⟩
+    · cases e
+  · cases e
+    exact hfm1
+
+theorem optimiseList_spec (cfg : Cfg) :
+    ∀ (gs : List String) (s s' : State), optimiseList cfg gs s = .ok s' →
+      (s'.segs = s.segs ∧ s'.memb = s.memb ∧ s'.intra = s.intra ∧ Aligned s'.groups s.groups) ∧
+      (Str s.groups → ∀ h i, FlatMem s'.groups h i ↔ FlatMem s.groups h i)
+  | [], s, s', e => by unfold optimiseList at e; cases e; exact ⟨⟨rfl, rfl, rfl, Aligned.refl _⟩, fun _ _ _ => Iff.rfl⟩
+  | g :: gs, s, s', e => by
+    unfold optimiseList at e
+    split at e
+    · rename_i s1 e1
+      obtain ⟨⟨a1, a2, a3, a4⟩, a5⟩ := optimiseList_spec cfg gs s1 s' e
+      obtain ⟨b1, b2, b3, b4⟩ := optimiseGroup_basic e1
+      refine ⟨⟨a1.trans b1, a2.trans b2, a3.trans b3, a4.trans b4⟩, ?_⟩
+      intro hs h i
+      rw [a5 (str_aligned b4 hs) h i]
+      exact optimiseGroup_flatMem hs e1 h i
+    · cases e
+
+/-- the model's `optimise_segment_groups` (shipped and C14-repaired loop alike) satisfies `OptSpec` -/
+theorem optSpec_optimiseAll (cfg : Cfg) : OptSpec (optimiseAll cfg) := by
+  refine ⟨?_, ?_, ?_, ?_, ?_⟩
+  · intro s s' e; exact (optimiseList_spec cfg _ s s' e).1.1
+  · intro s s' e; exact (optimiseList_spec cfg _ s s' e).1.2.1
+  · intro s s' e; exact (optimiseList_spec cfg _ s s' e).1.2.2.1
+  · intro s s' e; exact (optimiseList_spec cfg _ s s' e).1.2.2.2
+  · intro s s' hs e
+    obtain ⟨⟨a1, _, _, a4⟩, a5⟩ := optimiseList_spec cfg _ s s' e
+    exact res_of_flatMem hs a4 a1 (a5 hs)
+
+theorem optSpec_id : OptSpec (fun s => .ok s) := by
+  refine ⟨?_, ?_, ?_, ?_, ?_⟩
+  · intro s s' e; cases e; rfl
+  · intro s s' e; cases e; rfl
+  · intro s s' e; cases e; rfl
+  · intro s s' e; cases e; exact Aligned.refl _
+  · intro s s' _ e g l hl; cases e; exact ⟨l, hl, fun _ => Iff.rfl⟩
+
+theorem optSegs_of_optSpec {opt : State → Except Err State} (h : OptSpec opt) : OptSegs opt := h.segs
+
 end NmlVerif.Builder
